@@ -273,9 +273,12 @@ class Guards:
             for h in mine:
                 if h not in cache:
                     cache[h] = self._counters_of(h, loops[h])
-                for (L, bound) in cache[h]:
+                for (L, bound, rel) in cache[h]:
                     term = self.tb.read(L, (), (B, 0))
-                    out.append(("cmp", "Le", term, T.C(bound)))
+                    if bound is not None:
+                        out.append(("cmp", "Le", term, T.C(bound)))
+                    for E_ in rel:
+                        out.append(("cmp", "Le", term, E_))
             return out
         finally:
             self._in_counter = False
@@ -309,12 +312,32 @@ class Guards:
             if not all(b.dominates(ub, t) for t in latches):
                 continue
             best = None
+            rel = []
             for (d, s_, lab) in self.dominating_edges(ub):
                 if d not in blocks or b.term(d)["k"] != "switch":
                     continue
                 c = self.edge_condition(d, s_, lab)
                 if c is None:
                     continue
+                # relational form: the guard is `L + k <= E` (however spelt: `E - L >= k` included) with E a single loop-invariant
+                # quantity, c1 <= k and c0 <= E always: then L <= E at every point of the loop (c0 <= E on entry; afterwards
+                # the previous value passed the guard - read over the integers, which is exact as long as L <= E held - before
+                # c1 <= k was added).  This is what the subtraction `E - L` in the guard itself needs.
+                if c[0] == "cmp" and c[1] in ("Le", "Lt", "Ge", "Gt"):
+                    try:
+                        rl = lin(c[2]).add(lin(c[3]), -1)
+                        rop = c[1]
+                        if rop in ("Ge", "Gt"):
+                            rl, rop = rl.scale(-1), {"Ge": "Le", "Gt": "Lt"}[rop]
+                        others = {a_: -c_ for a_, c_ in rl.m.items() if a_ != phi}
+                        if rl.m.get(phi) == 1 and len(others) == 1:
+                            (ea, ec), = others.items()
+                            k_ = rl.c + (1 if rop == "Lt" else 0)
+                            mv_ = min_value(Lin(0, {ea: 1}))
+                            if ec == 1 and "opq" not in repr(ea) and c1[1] <= k_ and mv_ is not None and v0[1] <= mv_:
+                                rel.append(ea)
+                    except Exception:
+                        pass
                 conds = [N(c)]
                 try:
                     from . import slices as SL
@@ -345,8 +368,8 @@ class Guards:
                     U = -mv
                     bound = max(v0[1], U - k + c1[1])
                     best = bound if best is None else min(best, bound)
-            if best is not None:
-                res.append((L, best))
+            if best is not None or rel:
+                res.append((L, best, rel))
         return res
 
     def merge_facts(self, B):
